@@ -114,7 +114,21 @@ def run(ctx):
                          "rules and allOf on which Check succeeds: Example() is well-formed JSON (independent recogniser) and Validate(Example()) succeeds; (c) object keys containing quotes, "
                          "backslashes, control and non-ASCII characters; non-trivial = schema with a user type or a container")
     ctx.assumptions += ["Coq part: C04_self_valid_all (rule-free model accepts its own example); the example builder itself is not modelled: this property is decided by generated cases (partial)"]
-    ctx.classifiers["required_shortcut_collides_with_named_key"] = lambda case: isinstance(case, dict) and case.get("cls") == "shortcut-collision-required" and case.get("kind") == "val"
+    def collision(case):
+        if not (isinstance(case, dict) and case.get("kind") == "val"):
+            return False
+        if case.get("cls") == "shortcut-collision-required":
+            return True
+        # generated objects with several key shortcuts: the builder left an entry out (fewer properties than members) because its only example key was taken,
+        # and the schema then misses the required shortcut (205)
+        if case.get("cls") == "several-shortcuts" and str(case.get("validate_example", "")).startswith("E205"):
+            try:
+                ex = json.loads(case.get("example_text", "null"))
+            except ValueError:
+                return False
+            return isinstance(ex, dict) and len(ex) < case.get("members", 0)
+        return False
+    ctx.classifiers["required_shortcut_collides_with_named_key"] = collision
     ctx.classifiers["example_key_not_escaped"] = lambda case: isinstance(case, dict) and case.get("cls") == "keyescape"
     cases = []     # (label, harness case dict, expected example text or None, class tag)
     n = 4000 if quick else 24000
@@ -196,7 +210,9 @@ def run(ctx):
         root = rng.choice([("ref", [names[-1]], False), ("obj", [("r", False, ("ref", rng.sample(names, min(k, rng.choice([1, 2]))), False)), ("s", True, ("ref", [rng.choice(names)], False))], None, [])])
         g3.append((names, env, root, None))
     for names, env, root, _ in g3:
-        cases.append(("c03-graph", {"schema": C3.print_node(env, root), "types": [[nm, C3.print_node(env, env[nm])] for nm in names]}, None, "cutoff"))
+        several = root[0] == "obj" and sum(1 for m in root[1] if m[0].startswith("@")) >= 2
+        cases.append(("c03-graph", {"schema": C3.print_node(env, root), "types": [[nm, C3.print_node(env, env[nm])] for nm in names]}, None,
+                      ("several-shortcuts:%d" % len(root[1])) if several else "cutoff"))
     example_model_stream(ctx, st, g3)
     lines = [json.dumps(dict(c, ops=[["check"], ["example"], ["valex"], ["exampleagain"]])) for _, c, _, _ in cases]
     outs = vc.impl_isolating(["schema"], lines, 4)
@@ -209,6 +225,8 @@ def run(ctx):
         chk, ex, valex, again = r
         info = {"schema": c["schema"], "types": c.get("types"), "enums": c.get("enums"), "check": chk, "example": ex, "validate_example": valex, "cls": tag, "group": label,
                 "recursive": is_recursive(c)}
+        if isinstance(tag, str) and tag.startswith("several-shortcuts:"):
+            info["cls"], info["members"] = "several-shortcuts", int(tag.split(":")[1])
         if chk == "CRASH":
             ctx.report("Check/Example/Validate crashes the process on %r" % c["schema"][:100], "c15crash:" + json.dumps(c), info, case=info)
             continue
